@@ -6,6 +6,7 @@
 //         pool     history on a memory pool with growing raw memory      fixed   fixed pool (buffer handed out once)
 //         twopools two pools, blocks of both alive                       extreme (no faults) overflow / extreme arguments
 //         cxx      C++ allocators must throw std::bad_alloc
+//         poolreset_tls  threads used the pool and ended before pool_reset (-p threads=N); afterwards histories in the main thread and in a new thread
 //         poolorphan  pool whose slabs were orphaned by a finished thread and emptied by another thread, then raw memory is refused (-p keep=N live blocks of the finished thread)
 #include <oneapi/tbb/scalable_allocator.h>
 #include "vfh.h"
@@ -110,6 +111,20 @@ static void scenario() {
         vf_window(1); armed = true; history_pool(h, pool, 1); armed = false; vf_window(0);
         for (int i = 0; i < keep; i++) for (int j = 0; j < 256; j++) if (((unsigned char*)pa[i])[j] != 0x5a) vf_fail("a live block of the finished thread was damaged");
         void* z = rml::pool_malloc(pool, 100); if (!z) vf_fail("pool allocation still fails after raw memory became available again"); h.add(z, 100, 16, "pool_malloc"); h.check_all("recovery");
+        if (!rml::pool_destroy(pool)) vf_fail("pool_destroy failed"); for (auto& r : env[1].regions) if (r.live) vf_fail("pool_destroy kept raw region %p", (void*)r.p);
+        vf_outcome("raw=%d failed=%d nulls=%d", raw_calls, raw_failed, nulls); }
+    else if (streq(k, "poolreset_tls")) {   // threads used the pool and ended BEFORE pool_reset: the reset hands every byte of the pool's raw memory back to the pool's
+        // backend, so nothing the finished threads left behind (their per-thread bookkeeping records) may be handed to a later thread - it would share memory with user blocks.
+        rml::MemPoolPolicy pol(raw_alloc, raw_free); rml::MemoryPool* pool = nullptr; if (rml::pool_create_v1(1, &pol, &pool) != rml::POOL_OK) vf_fail("pool_create failed");
+        int nthr = (int)vf_param_int("threads", 2);
+        for (int i = 0; i < nthr; i++) { int t = spawn([&] { void* p = rml::pool_malloc(pool, 256); if (!p) vf_fail("pool_malloc failed in the setup"); memset(p, 0x5a, 256); if (vf_param_int("free", 1)) rml::pool_free(pool, p); doThreadShutdownNotification(nullptr, false); }); vf_join(t); }
+        if (!rml::pool_reset(pool)) vf_fail("pool_reset failed");
+        vf_window(1); armed = true; history_pool(h, pool, 1); armed = false; vf_window(0);
+        // a further thread works in the pool while the main thread's blocks are live
+        { int t = spawn([&] { ShadowHeap h3; for (int i = 0; i < 40; i++) { void* p = rml::pool_malloc(pool, 48 + 40 * (i % 5)); if (!p) vf_fail("pool_malloc failed in a new thread after pool_reset although raw memory is available"); if (!inside(1, p, 48)) vf_fail("pool block outside its raw memory"); h3.add(p, 48 + 40 * (i % 5), 16, "pool_malloc(new thread)"); }
+                h3.check_all("new thread after pool_reset"); while (!h3.live.empty()) { unsigned char* p = h3.live.begin()->first; h3.take(p, "pool_free"); rml::pool_free(pool, p); } doThreadShutdownNotification(nullptr, false); }); vf_join(t); }
+        h.check_all("after a new thread used the reset pool");
+        for (int i = 0; i < 60; i++) { void* p = rml::pool_malloc(pool, 64 + 16 * (i % 7)); if (!p) vf_fail("pool allocation fails after raw memory became available again"); if (!inside(1, p, 64)) vf_fail("pool block outside its raw memory"); h.add(p, 64 + 16 * (i % 7), 16, "pool_malloc"); } h.check_all("recovery");
         if (!rml::pool_destroy(pool)) vf_fail("pool_destroy failed"); for (auto& r : env[1].regions) if (r.live) vf_fail("pool_destroy kept raw region %p", (void*)r.p);
         vf_outcome("raw=%d failed=%d nulls=%d", raw_calls, raw_failed, nulls); }
     else if (streq(k, "twopools")) { rml::MemPoolPolicy pol(raw_alloc, raw_free); rml::MemoryPool *a = nullptr, *b = nullptr;
